@@ -6,7 +6,7 @@
 * textbook EKF predict / update / NIS.
 
 AST (JSON lists): ["sym", name] | ["dt"] | ["const", p, q] | ["add", a, b] | ["sub", a, b] | ["mul", a, b]
-                  | ["div", a, b] | ["pow", a, n] | ["fn", f, a]
+                  | ["div", a, b] | ["atan2", a, b] | ["pow", a, n] | ["fn", f, a]
 """
 from __future__ import annotations
 
@@ -15,7 +15,8 @@ import mpmath as mp
 mp.mp.dps = 50
 
 SING = mp.mpf(2) ** -6
-FUNCS = ("sin", "cos", "tan", "atan", "tanh", "exp", "log", "sqrt")
+FUNCS = ("sin", "cos", "tan", "atan", "tanh", "exp", "log", "sqrt",
+         "asin", "acos", "atanh", "sinh", "cosh", "asinh", "acot", "sec", "csc", "cot")
 
 
 class Singular(Exception):
@@ -49,7 +50,48 @@ def _fn(f, v, dv):
             raise Singular("sqrt arg")
         s = mp.sqrt(v)
         return s, dv / (2 * s)
+    if f in ("asin", "acos", "atanh"):
+        if abs(v) > 1 - SING:
+            raise Singular(f + " domain")
+        if f == "atanh":
+            return mp.atanh(v), dv / (1 - v * v)
+        r = mp.sqrt(1 - v * v)
+        return (mp.asin(v), dv / r) if f == "asin" else (mp.acos(v), -dv / r)
+    if f == "sinh":
+        return mp.sinh(v), mp.cosh(v) * dv
+    if f == "cosh":
+        return mp.cosh(v), mp.sinh(v) * dv
+    if f == "asinh":
+        return mp.asinh(v), dv / mp.sqrt(1 + v * v)
+    if f == "acot":  # sympy's convention: acot(v) = atan(1/v), discontinuous at 0
+        if abs(v) < SING:
+            raise Singular("acot at 0")
+        return mp.atan(1 / v), -dv / (1 + v * v)
+    if f == "sec":
+        c = mp.cos(v)
+        if abs(c) < SING:
+            raise Singular("sec pole")
+        return 1 / c, mp.sin(v) / (c * c) * dv
+    if f == "csc":
+        s_ = mp.sin(v)
+        if abs(s_) < SING:
+            raise Singular("csc pole")
+        return 1 / s_, -mp.cos(v) / (s_ * s_) * dv
+    if f == "cot":
+        s_ = mp.sin(v)
+        if abs(s_) < SING:
+            raise Singular("cot pole")
+        return mp.cos(v) / s_, -dv / (s_ * s_)
     raise ValueError(f)
+
+
+def _atan2(a, da, b, db):
+    r2 = a * a + b * b
+    if r2 < SING * SING:
+        raise Singular("atan2 at the origin")
+    if b < 0 and abs(a) < SING:
+        raise Singular("atan2 on the branch cut")
+    return mp.atan2(a, b), (b * da - a * db) / r2
 
 
 def ref_eval_d(ast, env, wrt=None):
@@ -82,6 +124,8 @@ def ref_eval_d(ast, env, wrt=None):
         if abs(b) < SING:
             raise Singular("denominator")
         return a / b, (da * b - a * db) / (b * b)
+    if t == "atan2":
+        return _atan2(a, da, b, db)
     raise ValueError(t)
 
 
@@ -117,6 +161,8 @@ def ref_eval_mag(ast, env):
         v = a - b
     elif t == "mul":
         v = a * b
+    elif t == "atan2":
+        v = _atan2(a, mp.mpf(0), b, mp.mpf(0))[0]
     else:
         if abs(b) < SING:
             raise Singular("denominator")
@@ -128,7 +174,7 @@ def ast_consts(ast, acc=None):
     acc = set() if acc is None else acc
     if ast[0] == "const":
         acc.add((ast[1], ast[2]))
-    elif ast[0] in ("add", "sub", "mul", "div"):
+    elif ast[0] in ("add", "sub", "mul", "div", "atan2"):
         ast_consts(ast[1], acc)
         ast_consts(ast[2], acc)
     elif ast[0] == "pow":
@@ -149,7 +195,7 @@ def ast_symbols(ast, acc=None):
         acc.add(ast[1])
     elif ast[0] == "dt":
         acc.add("dt")
-    elif ast[0] in ("add", "sub", "mul", "div"):
+    elif ast[0] in ("add", "sub", "mul", "div", "atan2"):
         ast_symbols(ast[1], acc)
         ast_symbols(ast[2], acc)
     elif ast[0] == "pow":
